@@ -389,8 +389,9 @@ class C13(Check):
                        "redun.scheduler.Scheduler + LocalExecutor + RedunBackendDb (scheduler part)"]
     COMPONENTS_STUB = ["callbacks: symbolic handlers interpreted identically on both sides"]
     EXPECTED_PROBES = ["callbacks_fired", "second_settlements_ignored", "adoptions",
-                       "reentrant_histories", "scheduler_runs", "scheduler_callbacks_fired"]
-    QUICK_SECONDS = 20.0
+                       "reentrant_histories", "reentrant_bursts", "scheduler_runs",
+                       "scheduler_callbacks_fired"]
+    QUICK_SECONDS = 25.0
 
     def setup(self) -> None:
         import logging
@@ -445,7 +446,7 @@ class C13(Check):
             return self.run_scheduler(ch)
         out = RunOutcome()
         REENTRANT["seen"] = False
-        reentrant = ch.choice(3, "reentrant-mode") == 2
+        reentrant = ch.choice(2, "reentrant-mode") == 1
         if reentrant:
             out.probe("reentrant_histories")
         real, ref = Side(True), Side(False)
@@ -456,10 +457,24 @@ class C13(Check):
             for s in (real, ref):
                 s.new()
             ops.append(("new",))
+        planned: list = []
+        if reentrant and ch.coin(0.3, "burst"):
+            # several callbacks wait on one pending promise, one of them registers a further
+            # callback on that same promise while it is being notified; then it settles
+            out.probe("reentrant_bursts")
+            m = 2 + ch.choice(3, "burst-n")
+            who = ch.choice(m, "burst-registrar")
+            for i in range(m):
+                h = ("register", "self") if i == who else gen_handler(ch, False)
+                cb_counter += 1
+                planned.append(("then", 0, h, h, cb_counter))
+            planned.append((["resolve", "reject"][ch.choice(2, "burst-settle")], 0, 99))
         for step in range(nops):
             n = len(real.table)
-            k = ch.choice(10, "op")
-            if k == 0 and n < MAX_PROMISES:
+            k = ch.choice(10, "op") if not planned else -1
+            if planned:
+                op = planned.pop(0)
+            elif k == 0 and n < MAX_PROMISES:
                 op = ("new",)
             elif k == 1 and n < MAX_PROMISES:
                 op = ("new_exec", (["resolve", "reject", "raise", "both"][ch.choice(4, "ex-kind")],
